@@ -72,6 +72,8 @@ def run_one(change, props, tier="quick", keep=False, base=None):
         if not keep:
             sh("git -C %s worktree remove --force %s" % (REPO, wt))
             shutil.rmtree(tgt, ignore_errors=True)
+            shutil.rmtree(tgt + "-b1", ignore_errors=True)
+            shutil.rmtree(tgt + "-b2", ignore_errors=True)
             shutil.rmtree(wt, ignore_errors=True)
     return out
 
